@@ -102,6 +102,10 @@ mut("C13-revert-syntax-error-undo-fix", "axlcomp.c",
 mut("C18-revert-exit-status-clamp", "main.c",
     "	return rc > 255 ? 255 : rc;", "	return rc;")
 
+mut("C18-revert-stdin-name-fix", "fname.c",
+    "	return strEqual(fnameName(fn), \"-\") &&\n	       (!fnameType(fn) || !fnameType(fn)[0]);",
+    "	return strEqual(fnameName(fn), \"-\");", count=1)
+
 
 def main():
     out = os.path.join(os.path.dirname(os.path.abspath(__file__)), "mutants")
